@@ -76,6 +76,14 @@ add("C05", "exploration", "DESIGN.md §2 C05",
     "client-side parsers are trusted; the reserved namespaces listed in the evidence assumptions are not generated; "
     "one recorded finding (virtual separators in mailbox paths) is excluded by signature and reported as KNOWN-FINDING")
 
+add("C06", "exploration", "DESIGN.md §2 C06",
+    "Differential testing across protocols: Hypothesis-generated decorated directories, sites and search strings; "
+    "oracle = pairwise equality of normalised entries / resolved kind+type / handler-side search string (spy)",
+    "3k (quick) / 80k (thorough) cases in three modes: listings through 10 protocol forms compared entry by entry "
+    "(incl. abstract settings and trailing slash), objects resolved through 6 forms with and without slash, search "
+    "strings through 9 forms observed at the handler multiplexer and in a script's environment. Sampled.",
+    "client-side parsers trusted; Gopher view is the reference for listings; remote links carry explicit host and port")
+
 NOT_APPLICABLE = []
 
 
